@@ -298,7 +298,7 @@ func runSolver(ctx context.Context, name string, file string, timeout time.Durat
 // solveOnce: a single z3 attempt (used for batches); leaves status empty unless discharged.
 func (eng *Engine) solveOnce(body string, o *Obligation, cfg *SolverCfg) {
 	t0 := time.Now()
-	file := filepath.Join(cfg.outDir, sanitizeFile(o.name)+".smt2")
+	file := filepath.Join(cfg.outDir, oblFile(o)+".smt2")
 	if os.WriteFile(file, []byte("(set-option :produce-models true)\n"+body), 0o644) != nil {
 		return
 	}
@@ -318,7 +318,7 @@ func (eng *Engine) solveOnce(body string, o *Obligation, cfg *SolverCfg) {
 // solve decides one obligation. status: discharged | failed (sat, with model) | undecided
 func (eng *Engine) solve(body string, o *Obligation, cfg *SolverCfg) {
 	t0 := time.Now()
-	base := filepath.Join(cfg.outDir, sanitizeFile(o.name))
+	base := filepath.Join(cfg.outDir, oblFile(o))
 	script := "(set-option :produce-models true)\n" + body
 	o.smt = base + ".smt2"
 	if err := os.WriteFile(o.smt, []byte(script), 0o644); err != nil {
@@ -469,6 +469,30 @@ func firstLines(s string, n int) string {
 		ls = ls[:n]
 	}
 	return strings.Join(ls, "\n")
+}
+
+// oblFile gives every obligation its own query file: two back edges of one loop (or two sites)
+// can generate obligations with the same name, and solver workers run concurrently - sharing a
+// file let one query be answered with the other's verdict.
+var (
+	oblFileMu   sync.Mutex
+	oblFileOf   = map[*Obligation]string{}
+	oblFileSeen = map[string]int{}
+)
+
+func oblFile(o *Obligation) string {
+	oblFileMu.Lock()
+	defer oblFileMu.Unlock()
+	if f, ok := oblFileOf[o]; ok {
+		return f
+	}
+	f := sanitizeFile(o.name)
+	oblFileSeen[f]++
+	if n := oblFileSeen[f]; n > 1 {
+		f = fmt.Sprintf("%s~%d", f, n)
+	}
+	oblFileOf[o] = f
+	return f
 }
 
 func sanitizeFile(s string) string {
